@@ -274,6 +274,7 @@ struct Settings {
 
 struct VmSlot {
 	vm: *mut jsonnet::VM,
+	reference: RefVm,
 	settings: Settings,
 	// keep callback contexts alive as long as the VM
 	cb_ctx: Vec<Box<CbCtx>>,
@@ -304,48 +305,55 @@ fn decode_multi(ptr: *const c_char) -> Vec<String> {
 	out
 }
 
-fn reference_eval(root: &str, s: &Settings, code: Option<&str>, file: Option<&str>, kind: EvalKind) -> Value {
-	let ctx = jrsonnet_stdlib::ContextInitializer::new(PathResolver::new_cwd_fallback());
-	for (k, (is_code, v)) in &s.ext {
-		ctx.settings_mut().ext_vars.insert(
-			k.as_str().into(),
-			if *is_code {
-				TlaArg::InlineCode(v.clone())
-			} else {
-				TlaArg::String(v.as_str().into())
-			},
-		);
+/// The reference side mirrors the VM: one long-lived Rust-API `State` per VM, with a resolver that
+/// can be swapped the way the C API swaps its own, so that caches and call counts share the history.
+struct SwitchResolver {
+	inner: RefCell<Rc<dyn ImportResolver>>,
+}
+impl Trace for SwitchResolver {
+	fn is_type_tracked() -> bool {
+		false
 	}
-	for (name, (fail, calls)) in &s.natives {
-		#[allow(deprecated)]
-		ctx.add_native(
-			name.as_str(),
-			jrsonnet_evaluator::function::builtin::NativeCallback::new(
-				vec!["a".to_owned(), "b".to_owned()],
-				RefNative {
-					fail_nth: *fail,
-					calls: calls.clone(),
-				},
-			),
-		);
+}
+// SAFETY: resolvers are acyclic by trait bound
+unsafe impl Acyclic for SwitchResolver {}
+impl ImportResolver for SwitchResolver {
+	fn resolve_from(&self, from: &SourcePath, path: &dyn AsPathLike) -> JrResult<SourcePath> {
+		let r = self.inner.borrow().clone();
+		r.resolve_from(from, path)
 	}
-	let mut b = State::builder();
-	match &s.import_cb {
-		Some((libs, fail, calls)) => {
-			b.import_resolver(RefCallbackResolver {
-				root: root.to_owned(),
-				libs: libs.clone(),
-				fail_nth: *fail,
-				calls: calls.clone(),
-				contents: RefCell::new(BTreeMap::new()),
-			});
-		}
-		None => {
-			b.import_resolver(FileImportResolver::new(s.jpaths.iter().map(|d| PathBuf::from(format!("{root}{d}"))).collect()));
-		}
+	fn resolve_from_default(&self, path: &dyn AsPathLike) -> JrResult<SourcePath> {
+		let r = self.inner.borrow().clone();
+		r.resolve_from_default(path)
 	}
-	b.context_initializer(ctx);
-	let state = b.build();
+	fn load_file_contents(&self, resolved: &SourcePath) -> JrResult<Vec<u8>> {
+		let r = self.inner.borrow().clone();
+		r.load_file_contents(resolved)
+	}
+}
+
+struct RefVm {
+	state: State,
+	ctx: jrsonnet_stdlib::ContextInitializer,
+}
+impl RefVm {
+	fn new() -> Self {
+		let ctx = jrsonnet_stdlib::ContextInitializer::new(PathResolver::new_cwd_fallback());
+		let mut b = State::builder();
+		b.import_resolver(SwitchResolver {
+			inner: RefCell::new(Rc::new(FileImportResolver::default())),
+		})
+		.context_initializer(ctx.clone());
+		Self { state: b.build(), ctx }
+	}
+	fn set_resolver(&self, r: Rc<dyn ImportResolver>) {
+		let any: &dyn std::any::Any = self.state.import_resolver();
+		*any.downcast_ref::<SwitchResolver>().expect("switch resolver").inner.borrow_mut() = r;
+	}
+}
+
+fn reference_eval(refvm: &RefVm, s: &Settings, code: Option<&str>, file: Option<&str>, kind: EvalKind) -> Value {
+	let state = &refvm.state;
 	let _e = state.enter();
 	let fmt: Box<dyn ManifestFormat> = if s.string_output {
 		Box::new(ToStringFormat)
@@ -472,6 +480,7 @@ impl Worker {
 						*vm,
 						VmSlot {
 							vm: p,
+							reference: RefVm::new(),
 							settings: Settings {
 								max_trace: 20,
 								..Default::default()
@@ -492,6 +501,7 @@ impl Worker {
 					let (n, v) = (CString::new(name.as_str()).expect("c"), CString::new(value.as_str()).expect("c"));
 					unsafe { jsonnet::vars_tlas::jsonnet_ext_var(&*s.vm, n.as_ptr(), v.as_ptr()) };
 					s.settings.ext.insert(name.clone(), (false, value.clone()));
+					s.reference.ctx.settings_mut().ext_vars.insert(name.as_str().into(), TlaArg::String(value.as_str().into()));
 				}
 			}
 			COp::ExtCode { vm, name, code } => {
@@ -499,6 +509,7 @@ impl Worker {
 					let (n, v) = (CString::new(name.as_str()).expect("c"), CString::new(code.as_str()).expect("c"));
 					unsafe { jsonnet::vars_tlas::jsonnet_ext_code(&*s.vm, n.as_ptr(), v.as_ptr()) };
 					s.settings.ext.insert(name.clone(), (true, code.clone()));
+					s.reference.ctx.settings_mut().ext_vars.insert(name.as_str().into(), TlaArg::InlineCode(code.clone()));
 				}
 			}
 			COp::TlaVar { vm, name, value } => {
@@ -522,6 +533,9 @@ impl Worker {
 						let p = CString::new(format!("{root}{dir}")).expect("c");
 						unsafe { jsonnet::import::jsonnet_jpath_add(&*s.vm, p.as_ptr()) };
 						s.settings.jpaths.push(dir.clone());
+						s.reference.set_resolver(Rc::new(FileImportResolver::new(
+							s.settings.jpaths.iter().map(|d| PathBuf::from(format!("{root}{d}"))).collect(),
+						)));
 					}
 				}
 			}
@@ -556,6 +570,13 @@ impl Worker {
 					s.cb_ctx.push(ctx);
 					s.settings.import_cb = Some((libs.clone(), *fail_nth, Rc::new(Cell::new(0))));
 					s.settings.jpaths.clear();
+					s.reference.set_resolver(Rc::new(RefCallbackResolver {
+						root: root.clone(),
+						libs: libs.clone(),
+						fail_nth: *fail_nth,
+						calls: Rc::new(Cell::new(0)),
+						contents: RefCell::new(BTreeMap::new()),
+					}));
 				}
 			}
 			COp::NativeCallback { vm, name, fail_nth } => {
@@ -572,6 +593,17 @@ impl Worker {
 					unsafe { jsonnet::native::jsonnet_native_callback(&*s.vm, n.as_ptr(), native_cb, p.cast(), params.as_ptr()) };
 					s.nat_ctx.push(ctx);
 					s.settings.natives.insert(name.clone(), (*fail_nth, Rc::new(Cell::new(0))));
+					#[allow(deprecated)]
+					s.reference.ctx.add_native(
+						name.as_str(),
+						jrsonnet_evaluator::function::builtin::NativeCallback::new(
+							vec!["a".to_owned(), "b".to_owned()],
+							RefNative {
+								fail_nth: *fail_nth,
+								calls: Rc::new(Cell::new(0)),
+							},
+						),
+					);
 				}
 			}
 			COp::EvalSnippet { vm, code, kind } => self.eval(*vm, Some(code.as_str()), None, *kind),
@@ -608,7 +640,7 @@ impl Worker {
 		};
 		// give the buffer back the way the header prescribes
 		unsafe { jsonnet::jsonnet_realloc(vmref, ptr.cast_mut().cast(), 0) };
-		let reference = reference_eval(&self.root, &slot.settings, code, file, kind);
+		let reference = reference_eval(&slot.reference, &slot.settings, code, file, kind);
 		self.emit(&json!({"eval": {"capi": capi, "reference": reference}}));
 	}
 }
@@ -818,7 +850,7 @@ impl Scenario for C15Capi {
 		let cwd = PathBuf::from(format!("{root}/w"));
 		let cfg = ChildCfg {
 			cwd: Some(&cwd),
-			timeout: Duration::from_secs(300),
+			timeout: Duration::from_secs(900),
 			..Default::default()
 		};
 		let out = run_child(
